@@ -328,7 +328,7 @@ def build_join_step(ck, v6, src, obs=None):
 def register(ck, tag, driver, params, builder):
     src = Src()
     R = builder(src, None)
-    rp = harness.make_replayer(ck, "rate_limit", driver, lambda s, obs: builder(s, obs), params)
+    rp = harness.make_replayer(ck, "rate_limit", driver, lambda s, obs: builder(s, obs), params, race_driver=("engine_key_race" if driver != "bucket_step" else None))
     ck.register_src(driver, params, src)
     prefs = clock_freeze_pref(R["eng"])
     for g, f in R["goals"].items():
@@ -336,6 +336,8 @@ def register(ck, tag, driver, params, builder):
     for g, f in R["reach"].items():
         ck.reach(f"{tag}/{g}", R["eng"], R["hyps"], f)
     ck.side(f"{tag}/side", R["eng"], R["hyps"], on_sat=rp)
+    if driver != "bucket_step":
+        ck.single_critical_section(tag, R["eng"], R["hyps"], on_sat=rp)
     ck.out.samples.append({"obligation": tag, "goals": list(R["goals"])})
 
 
@@ -369,7 +371,7 @@ def run(tier):
         "clock: arbitrary non-decreasing Instants, seconds < 2^40",
         "Kani: prefix helpers for all 2^128 / 2^32 addresses (unwind 18)",
     ]
-    ck.out.outside = ["concurrent callers (locks are identity)", "LRU eviction at 100k keys", "validation::RateLimiter::check_ip and TransportHandle listener wiring (async)",
+    ck.out.outside = ["concurrent callers: locks are identity in the symbolic execution; the only concurrency obligation is structural (each lock acquired at most once per call, so lookup+update of a key is one critical section), confirmed natively by a multi-threaded stress driver when violated", "LRU eviction at 100k keys", "validation::RateLimiter::check_ip and TransportHandle listener wiring (async)",
                       "symbolic window lengths other than 60 s / 3600 s",
                       "multi-step arrival sequences are covered by induction over the one-step relations (bucket invariant + count/window relation), not unrolled"]
     ck.out.assumptions = ["single-threaded execution",
